@@ -41,6 +41,12 @@ type Origin struct {
 	Exec  int   `json:"exec"`            // execution number of that function (1-based)
 	L     Label `json:"l"`               // label it was supplied / produced under
 	Dyn   int   `json:"dyn"`             // dynamic type
+	// Alt: further labels the value may legitimately travel under. Used for
+	// the redefine entry: the redefined function receives the caller's values
+	// through one resolution (any of its R+-compatible inputs may be bound to
+	// the value) and re-supplies them to the inner call under that input's
+	// label.
+	Alt []Label `json:"alt,omitempty"`
 }
 
 // ArgObs is one parameter as seen by a body.
@@ -328,7 +334,7 @@ func (w *World) realizeBuilt(fs *FuncSpec, opts []argmapper.Arg) (*argmapper.Fun
 			if l.Named() {
 				v = in.Named(l.Name)
 			} else {
-				v = in.TypedSubtype(Types[l.Type], l.Sub)
+				v = in.Typed(Types[l.Type]) // type-only values of built functions are unique by type
 			}
 			if v != nil {
 				got[i] = v.Value
@@ -340,7 +346,7 @@ func (w *World) realizeBuilt(fs *FuncSpec, opts []argmapper.Arg) (*argmapper.Fun
 			if l.Named() {
 				v = out.Named(l.Name)
 			} else {
-				v = out.TypedSubtype(Types[l.Type], l.Sub)
+				v = out.Typed(Types[l.Type])
 			}
 			if v == nil {
 				panic(fmt.Sprintf("harness: built output %s not found in set", l))
@@ -605,6 +611,21 @@ func (w *World) RedefineCall(target *argmapper.Func, args []argmapper.Arg) (rf *
 		w.mu.Unlock()
 		callArgs = append(callArgs, InputArg(in))
 	}
+	// a fresh value may be bound to any compatible input of rf and then
+	// travels on under that input's label
+	w.mu.Lock()
+	for _, in := range fresh {
+		org := w.Ledger[in.Tok]
+		for _, other := range fresh {
+			if other.Tok != in.Tok && RPlus(other.L, in.L) {
+				alt := other.L
+				alt.Dyn = in.L.Type
+				org.Alt = append(org.Alt, alt)
+			}
+		}
+		w.Ledger[in.Tok] = org
+	}
+	w.mu.Unlock()
 	callArgs = append(callArgs, Quiet())
 	o = w.Call(rf, callArgs)
 	return rf, nil, "", fresh, o
